@@ -95,7 +95,7 @@ func init() {
 		ID:          "C19",
 		Explanation: "RK: a successful lookup through a non-public import of a linker result marks that import used before returning. RH9: usedImports is written only by markUsed, which is called only from the shared visibility walk. RC9: CheckForUnusedImports runs only after Link, InterpretOptions and ValidateOptions, and only on the explicitFile branch. RC10: all requested files are registered with explicitFile = true inside one executor.mu critical section. RB2: no binary search over input-ordered slices (public_dependency etc.) in the linker.",
 		NotDecided:  "the converse (a marked import may still be removable)",
-		Rules:       []func(*World){rkResolvers, rh9UsedImports, rcLink, rc10ExplicitRegistration, rb2SortedAssumptions},
+		Rules:       []func(*World){rkResolvers, rh9UsedImports, rcLink, rc10ExplicitRegistration, rb2SortedAssumptions, raCompiler},
 	})
 	register(&Property{
 		ID:          "C17",
@@ -179,13 +179,13 @@ func init() {
 		ID:          "C14",
 		Explanation: "RP (sibling contradiction): the escape tables of the three string-literal decoders in the repository (parser lexer, fast scanner, linker.unescape) are extracted from their switch statements (letters per clause computed by evaluating the case conditions over all ASCII values; produced byte read from the single write of a simple clause) and must agree on the simple escapes and their bytes and on the multi-character introducers; each must equal the language specification's 11 simple escapes. RCF: no unreviewed case folding in the lexer/AST literal code.",
 		NotDecided:  "agreement with protoc on hex/octal/unicode digit handling, numeric literal values, overflow behaviour",
-		Rules:       []func(*World){rpC14, rp2EscapeBounds, rp3C14, rp4IntConversions, rcfCaseFolding},
+		Rules:       []func(*World){rpC14, rp2EscapeBounds, rp3C14, rp4IntConversions, rp5C14, rcfCaseFolding},
 	})
 	register(&Property{
 		ID:          "C25",
 		Explanation: "RP restricted to the parser's and the fast scanner's string decoders (same tables), plus modifier agreement: the import modifiers fastscan.Scan recognises equal the keyword alternatives of importDecl in parser/proto.y.",
 		NotDecided:  "statement boundary detection over arbitrary token streams; package name assembly",
-		Rules:       []func(*World){rpC25, rp3C25},
+		Rules:       []func(*World){rpC25, rp3C25, rp5C25, rp6ScannerStateReset},
 	})
 	register(&Property{
 		ID:          "C26",
